@@ -186,10 +186,47 @@ def to_nonneg(r):
     return tuple(to_nonneg(x) if isinstance(x, tuple) else x for x in r)
 
 
+CNF_UNARY = ["neg", "abs"]
+CNF_RED = ["max", "min", "add", "mul"]
+CNF_BIN = ["add", "mul", "sub", "max", "min"]
+CNF_WRAP = ["none", "sub-from", "add-to", "outer-reduce", "double"]
+CNF_GRID = [(w_, u, r, b) for w_ in CNF_WRAP for u in CNF_UNARY for r in CNF_RED for b in CNF_BIN]
+
+
+def gen_cnf_grid(rng, k):
+    """Normal-form shapes: a unary op applied to a reduction of a binary op, optionally wrapped — the
+    shapes on which funsor/cnf.py's normalize rules (unary_contract, fusion, distribution) fire.  The
+    grid unary x red_op x bin_op (wrapper `none` first) is walked in order, so that 40 consecutive cases
+    cover every (unary, red_op, bin_op) once."""
+    wrap, u, r, b = CNF_GRID[k % len(CNF_GRID)]
+    ctx = gen_ctx(rng)
+    names = list(ctx)
+    i = rng.choice(names)
+    na = sorted(set([i] + [n for n in names if rng.random() < 0.5]))
+    nb = sorted(set([i] + [n for n in names if rng.random() < 0.5]))
+    A = gen_terms.gen_tensor(rng, ctx, "real", names=na)
+    B = gen_terms.gen_tensor(rng, ctx, "real", names=nb)
+    core = ("unary", u, ("reduce", r, ("binary", b, A, B), (i,), ()))
+    X = gen_terms.gen_tensor(rng, ctx, "real")
+    if wrap == "sub-from":
+        recipe = ("binary", "sub", X, core[2])          # X - red(...)  (normalize: X + (-(red …)))
+    elif wrap == "add-to":
+        recipe = ("binary", "add", core, X)
+    elif wrap == "outer-reduce":
+        rest = sorted((set(na) | set(nb)) - {i})
+        recipe = ("reduce", rng.choice(CNF_RED), core, (rest[0],), ()) if rest else core
+    elif wrap == "double":
+        recipe = ("unary", u, core)
+    else:
+        recipe = core
+    return ctx, recipe
+
+
 def cases(base_seed, n):
     """The seeded case list: [(ctx, recipe, family, env)]; env binds the free real inputs."""
     rng = random.Random(f"C03-cases-{base_seed}")
     out = []
+    grid0 = 0
     for idx in range(n):
         if idx % 5 == 4:
             ctx, recipe = gen_sum_product(rng)
@@ -197,6 +234,13 @@ def cases(base_seed, n):
         elif idx % 5 == 2:
             ctx, recipe, env = gen_seq_lazy(rng)
             out.append((ctx, recipe, "seq-lazy", env))
+        elif idx % 5 == 3:
+            ctx, recipe = gen_cnf_grid(rng, grid0)
+            grid0 += 1
+            if carrier_risky(recipe):
+                out.append((ctx, to_nonneg(recipe), "cnf-grid:nonneg(max-mul carrier)", {}))
+            else:
+                out.append((ctx, recipe, "cnf-grid", {}))
         else:
             ctx = gen_ctx(rng)
             depth = rng.choice([1, 2, 2, 3, 3, 4])
